@@ -129,9 +129,12 @@ def processSuccessfulClaim (s : BState) (final : Content) : R BState :=
         | .ok b => .ok { s with bank := b }
     else .error (.err .ctype)
 
+/-- `CreateOracleClaimFromEthClaim` -/
+def claimOf (m : ClaimMsg) : Claim := ⟨prophecyId m.chain m.nonce m.sender, m.validator, claimContent m⟩
+
 /-- `msgServer.CreateEthBridgeClaim` -/
 def createClaim (ord : List Group → List Group) (vals : List Validator) (s : BState) (m : ClaimMsg) : R (BState × StatusText) :=
-  match processClaim ord vals s.oracle ⟨prophecyId m.chain m.nonce m.sender, m.validator, claimContent m⟩ with
+  match processClaim ord vals s.oracle (claimOf m) with
   | .error e => .error (.err (oerrCls e))
   | .ok (o, status, final) =>
     if status = .success then
@@ -310,5 +313,22 @@ def deliver (ord : List Group → List Group) (vals : List Validator) (s : BStat
   else match handle ord vals s m with
     | .ok r => r
     | .error f => (s, .failed f)
+
+/-! ### histories -/
+
+/-- one step of a history: the staking module changes the validator set (environment), or a message is delivered -/
+inductive Step where
+  | setVals (vals : List Validator)
+  | msg (m : Msg)
+
+structure World where
+  vals : List Validator
+  s : BState
+
+def stepWorld (ord : List Group → List Group) (w : World) : Step → World
+  | .setVals v => { w with vals := v }
+  | .msg m => { w with s := (deliver ord w.vals w.s m).1 }
+
+def run (ord : List Group → List Group) (w : World) (steps : List Step) : World := steps.foldl (stepWorld ord) w
 
 end Sif.EthBridge
